@@ -4,16 +4,18 @@ import OjgVerif.Gen.AltDiff
 
 Statements are about the model of `alt/diff.go` (`Diff/Model.lean`), which the correspondence run
 ties to the Go code, for every Go map iteration order (`OrdOK ord`) and both data flavours.
-`Dev` names the four places where the pinned code (d4b55cf) deviated from the property; the
-theorems are proved for every `D : Dev` on the inputs that the switched-on deviations cannot touch
-(`Clear`). All four defects are repaired in the repository (`fix:` commits c0c8224, 2f372fe,
-36b721b, 23c2317), so `Dev.current` — the code as it is now — has every flag off:
-`C19_current` / `C19_holds` are the property at full strength, with no exclusion (the only
-hypotheses are the domain of the model: `OrdOK ord`, and integers of the left tree that fit int64).
-`source_is_current` ties `Dev.current` to the regenerated source facts (`Gen/AltDiff.lean`): a tree
-that loses one of the repairs breaks it. The `full_false_*` theorems keep one kernel-evaluated
-witness per deviation as the record of the repaired defects (they are about the model with the flag
-switched on); `C19_full_false_before_23c2317` is the former `C19_full_false`. -/
+`Dev` names the five places where the code deviates or deviated from the property; the theorems
+are proved for every `D : Dev` on the inputs that the switched-on deviations cannot touch
+(`Clear`), for trees whose integers are machine integers (`MachineTree`: -2^63 ≤ i < 2^64, the
+values `int64` and `uint64` hold — the domain of the model, not an exclusion). Four defects of the
+pinned code (d4b55cf) are repaired in the repository (`fix:` commits c0c8224, 2f372fe, 36b721b,
+23c2317); `Dev.current` — the code as it is now — keeps `uintWrap` (known finding
+C19-uint64-wrap: `asInt` wraps the top half of `uint64`): `C19_current` is the property at full
+strength with the single exclusion "the integers of both trees fit int64", `C19_full_false`
+refutes the statement without it, `full_fixed` is the statement for the code with the proposed
+fix. `source_is_current` ties `Dev.current` to the regenerated source facts (`Gen/AltDiff.lean`).
+The other `full_false_*` theorems keep one kernel-evaluated witness per deviation as the record of
+the repaired defects (they are about the model with the flag switched on). -/
 namespace OjgVerif.C19
 open OjgVerif OjgVerif.Diff
 
@@ -31,52 +33,54 @@ structure Clear (D : Dev) (fl : Flavour) (a b : JV) (ign : List Path) : Prop whe
   flt : D.floatRound = true → AllInts IsFloatExact b
   /-- C19-gen-root-number needs generic data whose roots are an integer and a float -/
   gen : D.genRoot = true → fl = .gen → numKindMix a b = false
+  /-- C19-uint64-wrap needs an unsigned integer above `MaxInt64` (or, vacuously, below `MinInt64`) -/
+  wrap : D.uintWrap = true → Int64Tree a ∧ Int64Tree b
 
 theorem clear_fixed (fl : Flavour) (a b : JV) (ign : List Path) : Clear Dev.fixed fl a b ign :=
   ⟨fun h => (by simp [Dev.fixed] at h), fun h => (by simp [Dev.fixed] at h), fun h => (by simp [Dev.fixed] at h),
-    fun h => (by simp [Dev.fixed] at h)⟩
+    fun h => (by simp [Dev.fixed] at h), fun h => (by simp [Dev.fixed] at h)⟩
 
 section
 variable {D : Dev} {ord : List Bytes → List Bytes} {fl : Flavour} {a b : JV} {ign : List Path}
 
 /-- the paths returned by Diff are exactly the leaf differences that no ignore path covers -/
-theorem diff_exact (hord : OrdOK ord) (ha : Int64Tree a) (hc : Clear D fl a b ign) (p : Path) :
+theorem diff_exact (hord : OrdOK ord) (ha : MachineTree a) (hb : MachineTree b) (hc : Clear D fl a b ign) (p : Path) :
     p ∈ (diff D ord fl a b ign).map norm ↔ LeafDiff a b p ∧ ¬ Ignored ign p := by
   unfold diff
-  rw [diffTop_eq_fixed D ord fl false a b ign hc.idx hc.tail hc.flt hc.gen]
+  rw [diffTop_eq_fixed D ord fl false a b ign hc.idx hc.tail hc.flt hc.gen hc.wrap]
   simp only [diffTop, Ignored]
-  rw [mem_ndiffF ord hord _ a b ign p (Nat.lt_succ_self _) ha]
+  rw [mem_ndiffF ord hord _ a b ign p (Nat.lt_succ_self _) ha hb]
   simp
 
 /-- Diff is empty exactly when the trees are equal once the ignored locations are disregarded -/
-theorem diff_empty (hord : OrdOK ord) (ha : Int64Tree a) (hc : Clear D fl a b ign) :
+theorem diff_empty (hord : OrdOK ord) (ha : MachineTree a) (hb : MachineTree b) (hc : Clear D fl a b ign) :
     diff D ord fl a b ign = [] ↔ EquivModulo ign a b := by
   constructor
   · intro h q hq
     by_cases hi : Ignored ign q
     · exact hi
-    · have := (diff_exact hord ha hc q).2 ⟨hq, hi⟩
+    · have := (diff_exact hord ha hb hc q).2 ⟨hq, hi⟩
       rw [h] at this; simp at this
   · intro h
     cases hd : diff D ord fl a b ign with
     | nil => rfl
     | cons p r =>
       have hm : norm p ∈ (diff D ord fl a b ign).map norm := List.mem_map.2 ⟨p, by rw [hd]; exact List.mem_cons_self, rfl⟩
-      have := (diff_exact hord ha hc (norm p)).1 hm
+      have := (diff_exact hord ha hb hc (norm p)).1 hm
       exact absurd (h _ this.1) this.2
 
 /-- every returned path leads to a genuine difference — in fact to a leaf difference — and is not ignored -/
-theorem diff_sound (hord : OrdOK ord) (ha : Int64Tree a) (hc : Clear D fl a b ign) {p : Path}
+theorem diff_sound (hord : OrdOK ord) (ha : MachineTree a) (hb : MachineTree b) (hc : Clear D fl a b ign) {p : Path}
     (hp : p ∈ diff D ord fl a b ign) :
     DiffersAt a b (norm p) ∧ LeafDiff a b (norm p) ∧ ¬ Ignored ign (norm p) := by
-  have := (diff_exact hord ha hc (norm p)).1 (List.mem_map.2 ⟨p, hp, rfl⟩)
+  have := (diff_exact hord ha hb hc (norm p)).1 (List.mem_map.2 ⟨p, hp, rfl⟩)
   exact ⟨leafDiff_differsAt this.1, this.1, this.2⟩
 
 /-- every leaf difference that is not ignored lies under (is) a returned path -/
-theorem diff_complete (hord : OrdOK ord) (ha : Int64Tree a) (hc : Clear D fl a b ign) {q : Path}
+theorem diff_complete (hord : OrdOK ord) (ha : MachineTree a) (hb : MachineTree b) (hc : Clear D fl a b ign) {q : Path}
     (hq : LeafDiff a b q) (hi : ¬ Ignored ign q) :
     ∃ p, p ∈ diff D ord fl a b ign ∧ norm p <+: q := by
-  obtain ⟨p, hp, he⟩ := List.mem_map.1 ((diff_exact hord ha hc q).2 ⟨hq, hi⟩)
+  obtain ⟨p, hp, he⟩ := List.mem_map.1 ((diff_exact hord ha hb hc q).2 ⟨hq, hi⟩)
   exact ⟨p, hp, by rw [he]; exact List.prefix_refl q⟩
 
 end
@@ -84,9 +88,9 @@ end
 /-- without ignore paths: Diff is empty exactly when the trees are equal up to numeric width and
 null-versus-absent members -/
 theorem diff_empty_iff_equiv {D : Dev} {ord : List Bytes → List Bytes} {fl : Flavour} {a b : JV}
-    (hord : OrdOK ord) (ha : Int64Tree a) (hc : Clear D fl a b []) :
+    (hord : OrdOK ord) (ha : MachineTree a) (hb : MachineTree b) (hc : Clear D fl a b []) :
     diff D ord fl a b [] = [] ↔ Equiv a b := by
-  rw [diff_empty hord ha hc, equiv_iff_no_leafDiff]
+  rw [diff_empty hord ha hb hc, equiv_iff_no_leafDiff]
   constructor
   · intro h q hq
     have := h q hq
@@ -129,18 +133,19 @@ theorem compare_mem (D : Dev) (ord : List Bytes → List Bytes) (fl : Flavour) (
 /-! ## Match -/
 
 /-- Match holds exactly when every member of the fingerprint is matched in the target -/
-theorem match_iff {D : Dev} {fl : Flavour} {f t : JV} (hf : Int64Tree f)
+theorem match_iff {D : Dev} {fl : Flavour} {f t : JV} (hf : MachineTree f) (ht : MachineTree t)
     (h3 : D.floatRound = true → AllInts IsFloatExact t)
-    (h4 : D.genRoot = true → fl = .gen → numKindMix f t = false) :
+    (h4 : D.genRoot = true → fl = .gen → numKindMix f t = false)
+    (h5 : D.uintWrap = true → Int64Tree f ∧ Int64Tree t) :
     altMatch D fl f t = true ↔ FpMatch f t := by
-  rw [altMatch_eq_fixed D fl f t h3 h4]
-  exact matchF_iff _ f t (Nat.lt_succ_self _) hf
+  rw [altMatch_eq_fixed D fl f t h3 h4 h5]
+  exact matchF_iff _ f t (Nat.lt_succ_self _) hf ht
 
 /-! ## the property at full strength, for a given set of deviations -/
 
 /-- C19 for the model with deviations `D` -/
 def Full (D : Dev) : Prop :=
-  ∀ (ord : List Bytes → List Bytes), OrdOK ord → ∀ (fl : Flavour) (a b : JV) (ign : List Path), Int64Tree a →
+  ∀ (ord : List Bytes → List Bytes), OrdOK ord → ∀ (fl : Flavour) (a b : JV) (ign : List Path), MachineTree a → MachineTree b →
     (∀ p, p ∈ (diff D ord fl a b ign).map norm ↔ LeafDiff a b p ∧ ¬ Ignored ign p) ∧
     (diff D ord fl a b ign = [] ↔ EquivModulo ign a b) ∧
     (Diff.compare D ord fl a b ign = none ↔ diff D ord fl a b ign = []) ∧
@@ -149,39 +154,75 @@ def Full (D : Dev) : Prop :=
 
 /-- the code with the proposed fixes satisfies C19 at full strength -/
 theorem full_fixed : Full Dev.fixed := by
-  intro ord hord fl a b ign ha
+  intro ord hord fl a b ign ha hb
   have hc := clear_fixed fl a b ign
-  exact ⟨diff_exact hord ha hc, diff_empty hord ha hc, compare_none _ _ _ _ _ _, fun _ => compare_mem _ _ _ _ _ _,
-    match_iff ha (fun h => (by simp [Dev.fixed] at h)) (fun h => (by simp [Dev.fixed] at h))⟩
+  exact ⟨diff_exact hord ha hb hc, diff_empty hord ha hb hc, compare_none _ _ _ _ _ _, fun _ => compare_mem _ _ _ _ _ _,
+    match_iff ha hb hc.flt hc.gen hc.wrap⟩
 
 /-- C19 for the code as it is now -/
 def C19_full : Prop := Full Dev.current
 
+/-- integers that fit `int64` are machine integers -/
+theorem machine_of_int64 {a : JV} (h : Int64Tree a) : MachineTree a := by
+  have key : ∀ (n : Nat) (a : JV), a.depth < n → Int64Tree a → MachineTree a := by
+    intro n
+    induction n with
+    | zero => intro a h; omega
+    | succ n ih =>
+      intro a hd h
+      cases h with
+      | null => exact AllInts.null
+      | bool b => exact AllInts.bool b
+      | int i hi => exact AllInts.int i ⟨hi.1, by have := hi.2; omega⟩
+      | flt t => exact AllInts.flt t
+      | big t => exact AllInts.big t
+      | num t => exact AllInts.num t
+      | str t => exact AllInts.str t
+      | arr xs hx =>
+        refine AllInts.arr xs (fun x hm => ?_)
+        obtain ⟨i, hi⟩ := List.getElem?_of_mem hm
+        exact ih x (by have := depth_elem hi; omega) (hx x hm)
+      | obj m hm =>
+        refine AllInts.obj m (fun kv hkv => ?_)
+        have hdk : kv.2.depth ≤ JV.depthKvs m := by
+          clear hm hd
+          induction m with
+          | nil => cases hkv
+          | cons e r ihr =>
+            cases e with
+            | mk k v =>
+              rcases List.mem_cons.1 hkv with rfl | h'
+              · simp [JV.depthKvs]; omega
+              · have := ihr h'; simp [JV.depthKvs]; omega
+        exact ih kv.2 (by simp [JV.depth] at hd; omega) (hm kv hkv)
+  exact key _ a (Nat.lt_succ_self _) h
+
 /-- the code satisfies C19 on every input that is clear of the deviations `Dev.current` switches on
-(generic form, kept for scratch trees; today `Clear Dev.current` is void, see `clear_current`) -/
+(generic form; `C19_current` spells it out for today's `Dev.current`) -/
 theorem C19_partial {ord : List Bytes → List Bytes} (hord : OrdOK ord) {fl : Flavour} {a b : JV} {ign : List Path}
-    (ha : Int64Tree a) (hc : Clear Dev.current fl a b ign) :
+    (ha : MachineTree a) (hb : MachineTree b) (hc : Clear Dev.current fl a b ign) :
     (∀ p, p ∈ (diff Dev.current ord fl a b ign).map norm ↔ LeafDiff a b p ∧ ¬ Ignored ign p) ∧
     (diff Dev.current ord fl a b ign = [] ↔ EquivModulo ign a b) ∧
     (Diff.compare Dev.current ord fl a b ign = none ↔ diff Dev.current ord fl a b ign = []) ∧
     (∀ p, Diff.compare Dev.current ord fl a b ign = some p → p ∈ diff Dev.current ord fl a b ign) ∧
     (altMatch Dev.current fl a b = true ↔ FpMatch a b) :=
-  ⟨diff_exact hord ha hc, diff_empty hord ha hc, compare_none _ _ _ _ _ _, fun _ => compare_mem _ _ _ _ _ _,
-    match_iff ha hc.flt hc.gen⟩
+  ⟨diff_exact hord ha hb hc, diff_empty hord ha hb hc, compare_none _ _ _ _ _ _, fun _ => compare_mem _ _ _ _ _ _,
+    match_iff ha hb hc.flt hc.gen hc.wrap⟩
 
-/-- no exclusion is left for the code as it is now -/
-theorem clear_current (fl : Flavour) (a b : JV) (ign : List Path) : Clear Dev.current fl a b ign :=
+/-- the one exclusion left for the code as it is now: no unsigned integer above `MaxInt64` -/
+theorem clear_current (fl : Flavour) {a b : JV} (ign : List Path) (ha : Int64Tree a) (hb : Int64Tree b) :
+    Clear Dev.current fl a b ign :=
   ⟨fun h => (by simp [Dev.current] at h), fun h => (by simp [Dev.current] at h),
-    fun h => (by simp [Dev.current] at h), fun h => (by simp [Dev.current] at h)⟩
+    fun h => (by simp [Dev.current] at h), fun h => (by simp [Dev.current] at h), fun _ => ⟨ha, hb⟩⟩
 
-/-- **C19 for the code as it is now, at full strength**: for every map iteration order, both data
-flavours, every ignore set and every pair of trees (integers of the left tree fitting int64 — the
-domain of the model, not an exclusion): Diff returns exactly the leaf differences that no ignore
-path covers — hence it is empty iff the trees are equivalent modulo the ignore paths, sound and
-complete —, Compare is nil iff Diff is empty and otherwise one of Diff's paths, and Match is the
-fingerprint relation. No hypothesis on ignore paths, generic roots or magnitudes. -/
+/-- **C19 for the code as it is now**: for every map iteration order, both data flavours, every
+ignore set and every pair of trees whose integers fit int64 (the single exclusion: `asInt` wraps a
+`uint`/`uint64` above `MaxInt64`, known finding C19-uint64-wrap): Diff returns exactly the leaf
+differences that no ignore path covers — hence it is empty iff the trees are equivalent modulo the
+ignore paths, sound and complete —, Compare is nil iff Diff is empty and otherwise one of Diff's
+paths, and Match is the fingerprint relation. -/
 theorem C19_current {ord : List Bytes → List Bytes} (hord : OrdOK ord) {fl : Flavour} {a b : JV} {ign : List Path}
-    (ha : Int64Tree a) :
+    (ha : Int64Tree a) (hb : Int64Tree b) :
     (∀ p, p ∈ (diff Dev.current ord fl a b ign).map norm ↔ LeafDiff a b p ∧ ¬ Ignored ign p) ∧
     (diff Dev.current ord fl a b ign = [] ↔ EquivModulo ign a b) ∧
     (∀ p, p ∈ diff Dev.current ord fl a b ign →
@@ -190,31 +231,29 @@ theorem C19_current {ord : List Bytes → List Bytes} (hord : OrdOK ord) {fl : F
     (Diff.compare Dev.current ord fl a b ign = none ↔ diff Dev.current ord fl a b ign = []) ∧
     (∀ p, Diff.compare Dev.current ord fl a b ign = some p → p ∈ diff Dev.current ord fl a b ign) ∧
     (altMatch Dev.current fl a b = true ↔ FpMatch a b) :=
-  have hc : Clear Dev.current fl a b ign := clear_current fl a b ign
-  ⟨diff_exact hord ha hc, diff_empty hord ha hc, fun _ hp => diff_sound hord ha hc hp,
-    fun _ hq hi => diff_complete hord ha hc hq hi, compare_none _ _ _ _ _ _, fun _ => compare_mem _ _ _ _ _ _,
-    match_iff ha hc.flt hc.gen⟩
+  have hc : Clear Dev.current fl a b ign := clear_current fl ign ha hb
+  have ha' := machine_of_int64 ha
+  have hb' := machine_of_int64 hb
+  ⟨diff_exact hord ha' hb' hc, diff_empty hord ha' hb' hc, fun _ hp => diff_sound hord ha' hb' hc hp,
+    fun _ hq hi => diff_complete hord ha' hb' hc hq hi, compare_none _ _ _ _ _ _, fun _ => compare_mem _ _ _ _ _ _,
+    match_iff ha' hb' hc.flt hc.gen hc.wrap⟩
 
 /-- without ignore paths: Diff is empty exactly when the trees are equal up to numeric width and
 null-versus-absent members -/
 theorem C19_current_equiv {ord : List Bytes → List Bytes} (hord : OrdOK ord) {fl : Flavour} {a b : JV}
-    (ha : Int64Tree a) : diff Dev.current ord fl a b [] = [] ↔ Equiv a b :=
-  diff_empty_iff_equiv hord ha (clear_current fl a b [])
+    (ha : Int64Tree a) (hb : Int64Tree b) : diff Dev.current ord fl a b [] = [] ↔ Equiv a b :=
+  diff_empty_iff_equiv hord (machine_of_int64 ha) (machine_of_int64 hb) (clear_current fl [] ha hb)
 
-/-- the full statement holds for the code as it is now -/
-theorem C19_holds : C19_full := by
-  intro ord hord fl a b ign ha
-  have h := C19_current (ord := ord) hord (fl := fl) (a := a) (b := b) (ign := ign) ha
-  exact ⟨h.1, h.2.1, h.2.2.2.2.1, h.2.2.2.2.2.1, h.2.2.2.2.2.2⟩
-
-/-! ## the source carries the four repairs -/
+/-! ## the source carries the repairs, and only those -/
 
 /-- the deviation set read off the regenerated facts about `alt/diff.go` (`tools/extract/diff.go`):
 * `lastIndex` unless the child ignore paths are built per element, inside the element loop;
 * `floatRound` unless `floatEqual` exists, compares through `asInt`, and is what the float cases of
   both `diff` and `Match` call;
 * `tailSkip` unless the `len(t1) <= i` test comes first in the element loop and consults `ignoreIndex`;
-* `genRoot` unless `gen.Int` / `gen.Float` are named in the integer / float cases of both switches. -/
+* `genRoot` unless `gen.Int` / `gen.Float` are named in the integer / float cases of both switches;
+* `uintWrap` unless `intEqual` exists, it and `floatEqual` consult `asBigUint`, and `intEqual` is what
+  the integer cases of both `diff` and `Match` call. -/
 def Dev.ofSource : Dev where
   lastIndex := !Gen.AltDiff.arrChildIgnoresInsideLoop
   floatRound := !(Gen.AltDiff.hasFloatEqual && Gen.AltDiff.floatEqualCalls.contains "asInt" &&
@@ -222,6 +261,9 @@ def Dev.ofSource : Dev where
   tailSkip := !(Gen.AltDiff.arrLengthTestFirst && Gen.AltDiff.arrLengthTestHonoursIgnore)
   genRoot := !(Gen.AltDiff.diffIntCaseTypes.contains "gen.Int" && Gen.AltDiff.matchIntCaseTypes.contains "gen.Int" &&
     Gen.AltDiff.diffFloatCaseTypes.contains "gen.Float" && Gen.AltDiff.matchFloatCaseTypes.contains "gen.Float")
+  uintWrap := !(Gen.AltDiff.hasIntEqual && Gen.AltDiff.intEqualCalls.contains "asBigUint" &&
+    Gen.AltDiff.floatEqualCalls.contains "asBigUint" &&
+    Gen.AltDiff.diffIntCaseCalls.contains "intEqual" && Gen.AltDiff.matchIntCaseCalls.contains "intEqual")
 
 /-- the source the check runs against has the shape of the model's `Dev.current` -/
 theorem source_is_current : Dev.ofSource = Dev.current := by decide
@@ -240,31 +282,38 @@ def w1b : JV := .arr [.obj [(kA, .int 9), (kB, .int 2)], .obj [(kA, .int 8), (kB
 /-- `Path{0,"a"}, Path{1,"b"}` -/
 def w1ign : List Path := [[.idx 0, .key kA], [.idx 1, .key kB]]
 
-theorem int64_small (i : Int) (h : -9223372036854775808 ≤ i ∧ i < 9223372036854775808 := by decide) :
-    Int64Tree (.int i) := AllInts.int i h
+/-- the integers of `w1a` and `w1b` satisfy any predicate that holds of 1, 2, 3, 4, 8, 9 -/
+theorem w1_all (P : Int → Prop) (h : P 1 ∧ P 2 ∧ P 3 ∧ P 4 ∧ P 8 ∧ P 9) : AllInts P w1a ∧ AllInts P w1b := by
+  constructor <;>
+  · refine AllInts.arr _ (fun x hx => ?_)
+    simp only [List.mem_cons, List.not_mem_nil, or_false] at hx
+    rcases hx with rfl | rfl <;>
+    · refine AllInts.obj _ (fun kv hkv => ?_)
+      simp only [List.mem_cons, List.not_mem_nil, or_false] at hkv
+      rcases hkv with rfl | rfl <;>
+        first
+        | exact AllInts.int _ h.1 | exact AllInts.int _ h.2.1 | exact AllInts.int _ h.2.2.1
+        | exact AllInts.int _ h.2.2.2.1 | exact AllInts.int _ h.2.2.2.2.1 | exact AllInts.int _ h.2.2.2.2.2
 
-theorem w1a_int64 : Int64Tree w1a := by
-  refine AllInts.arr _ (fun x hx => ?_)
-  simp only [List.mem_cons, List.not_mem_nil, or_false] at hx
-  rcases hx with rfl | rfl <;>
-  · refine AllInts.obj _ (fun kv hkv => ?_)
-    simp only [List.mem_cons, List.not_mem_nil, or_false] at hkv
-    rcases hkv with rfl | rfl <;> exact AllInts.int _ (by decide)
+theorem w1a_int64 : Int64Tree w1a := (w1_all IsInt64 (by decide)).1
+theorem w1b_int64 : Int64Tree w1b := (w1_all IsInt64 (by decide)).2
+theorem w1a_machine : MachineTree w1a := (w1_all IsMachineInt (by decide)).1
+theorem w1b_machine : MachineTree w1b := (w1_all IsMachineInt (by decide)).2
 
 /-- an instance on the former multi-index witness: the ignore paths `Path{0,"a"}, Path{1,"b"}` need
 no exclusion any more -/
 example : (∀ p, p ∈ (diff Dev.current id .simple w1a w1b w1ign).map norm ↔
     LeafDiff w1a w1b p ∧ ¬ Ignored w1ign p) :=
-  (C19_current ordOK_id w1a_int64).1
+  (C19_current ordOK_id w1a_int64 w1b_int64).1
 
 /-- before c0c8224: `Diff(a, b, Path{0,"a"}, Path{1,"b"})` is `[[0 a]]`: the ignored `[0].a` is reported … -/
-theorem w1_model : diff ⟨true, false, false, false⟩ id .simple w1a w1b w1ign = [[.idx 0, .key kA]] := by
+theorem w1_model : diff ⟨true, false, false, false, false⟩ id .simple w1a w1b w1ign = [[.idx 0, .key kA]] := by
   decide +kernel
 
 /-- … and `[1].a`, a difference that is not ignored, is missed -/
-theorem full_false_lastIndex : ¬ Full ⟨true, false, false, false⟩ := by
+theorem full_false_lastIndex : ¬ Full ⟨true, false, false, false, false⟩ := by
   intro h
-  have h1 := (h id ordOK_id .simple w1a w1b w1ign w1a_int64).1 [.idx 1, .key kA]
+  have h1 := (h id ordOK_id .simple w1a w1b w1ign w1a_machine w1b_machine).1 [.idx 1, .key kA]
   rw [w1_model] at h1
   have hl : LeafDiff w1a w1b [.idx 1, .key kA] :=
     LeafDiff.elem (i := 1) rfl rfl (LeafDiff.member (k := kA) (LeafDiff.here (by decide)))
@@ -278,27 +327,27 @@ def w2a : JV := .flt [57, 48, 48, 55, 49, 57, 57, 50, 53, 52, 55, 52, 48, 57, 57
 /-- 2^53 + 1 as an integer -/
 def w2b : JV := .int 9007199254740993
 
-theorem w2_model : diff ⟨false, true, false, false⟩ id .simple w2a w2b [] = [] := by decide +kernel
+theorem w2_model : diff ⟨false, true, false, false, false⟩ id .simple w2a w2b [] = [] := by decide +kernel
 theorem w2_pinned : diff Dev.pinned id .simple w2a w2b [] = [] := by decide +kernel
 
 theorem w2_leaf : LeafDiff w2a w2b [] := LeafDiff.here (by decide +kernel)
 
 /-- before 23c2317: `Diff(float64(1<<53), int64(1<<53+1))` is empty although the numbers differ -/
-theorem full_false_floatRound : ¬ Full ⟨false, true, false, false⟩ := by
+theorem full_false_floatRound : ¬ Full ⟨false, true, false, false, false⟩ := by
   intro h
-  have h1 := (h id ordOK_id .simple w2a w2b [] (AllInts.flt _)).1 []
+  have h1 := (h id ordOK_id .simple w2a w2b [] (AllInts.flt _) (AllInts.int _ (by decide))).1 []
   rw [w2_model] at h1
   have := h1.2 ⟨w2_leaf, by decide⟩
   simp at this
 
-/-- the former `C19_full_false`: until 23c2317 `Dev.current` was `⟨false, true, false, false⟩` and
+/-- the former `C19_full_false`: until 23c2317 `Dev.current` was `⟨false, true, false, false, false⟩` and
 the code did not satisfy C19 at full strength -/
-theorem C19_full_false_before_23c2317 : ¬ Full ⟨false, true, false, false⟩ := full_false_floatRound
+theorem C19_full_false_before_23c2317 : ¬ Full ⟨false, true, false, false, false⟩ := full_false_floatRound
 
 /-- the pinned code (all four deviations) did not satisfy C19 -/
 theorem full_false_pinned : ¬ Full Dev.pinned := by
   intro h
-  have h1 := (h id ordOK_id .simple w2a w2b [] (AllInts.flt _)).1 []
+  have h1 := (h id ordOK_id .simple w2a w2b [] (AllInts.flt _) (AllInts.int _ (by decide))).1 []
   rw [w2_pinned] at h1
   have := h1.2 ⟨w2_leaf, by decide⟩
   simp at this
@@ -310,33 +359,68 @@ theorem w2_now : diff Dev.current id .simple w2a w2b [] = [here] := by decide +k
 def w3a : JV := .arr [.int 1, .int 2, .int 3]
 def w3b : JV := .arr [.int 1]
 
-theorem w3a_int64 : Int64Tree w3a := by
+theorem w3a_machine : MachineTree w3a := by
   refine AllInts.arr _ (fun x hx => ?_)
   simp only [List.mem_cons, List.not_mem_nil, or_false] at hx
   rcases hx with rfl | rfl | rfl <;> exact AllInts.int _ (by decide)
 
-theorem w3_model : diff ⟨false, false, true, false⟩ id .simple w3a w3b [[.idx 1]] = [[.idx 2]] := by decide +kernel
+theorem w3b_machine : MachineTree w3b := by
+  refine AllInts.arr _ (fun x hx => ?_)
+  simp only [List.mem_cons, List.not_mem_nil, or_false] at hx
+  subst hx; exact AllInts.int _ (by decide)
+
+theorem w3_model : diff ⟨false, false, true, false, false⟩ id .simple w3a w3b [[.idx 1]] = [[.idx 2]] := by decide +kernel
 
 /-- before 2f372fe: `Diff([1,2,3], [1], Path{1})` is `[[2]]`: not a leaf difference (the length mismatch lives at
 `[1]`, which is ignored; with the arrays swapped the code returns nothing) -/
-theorem full_false_tailSkip : ¬ Full ⟨false, false, true, false⟩ := by
+theorem full_false_tailSkip : ¬ Full ⟨false, false, true, false, false⟩ := by
   intro h
-  have h1 := (h id ordOK_id .simple w3a w3b [[.idx 1]] w3a_int64).1 [.idx 2]
+  have h1 := (h id ordOK_id .simple w3a w3b [[.idx 1]] w3a_machine w3b_machine).1 [.idx 2]
   rw [w3_model] at h1
   have := (h1.1 (by decide)).1
   cases this with
   | elem h2 h3 _ => simp at h3
 
-theorem w4_model : diff ⟨false, false, false, true⟩ id .gen (.int 3) (.flt [51]) [] = [here] := by decide +kernel
+theorem w4_model : diff ⟨false, false, false, true, false⟩ id .gen (.int 3) (.flt [51]) [] = [here] := by decide +kernel
 
 /-- before 36b721b: `Diff(gen.Int(3), gen.Float(3))` is `[[nil]]` although 3 = 3.0 -/
-theorem full_false_genRoot : ¬ Full ⟨false, false, false, true⟩ := by
+theorem full_false_genRoot : ¬ Full ⟨false, false, false, true, false⟩ := by
   intro h
-  have h1 := (h id ordOK_id .gen (.int 3) (.flt [51]) [] (AllInts.int _ (by decide))).1 []
+  have h1 := (h id ordOK_id .gen (.int 3) (.flt [51]) [] (AllInts.int _ (by decide)) (AllInts.flt _)).1 []
   rw [w4_model] at h1
   have := (h1.1 (by decide)).1
   cases this with
   | here hc => revert hc; decide +kernel
+
+/-- 2^63 as a `uint64` -/
+def w5a : JV := .int 9223372036854775808
+/-- `math.MinInt64` -/
+def w5b : JV := .int (-9223372036854775808)
+
+theorem w5_model : diff ⟨false, false, false, false, true⟩ id .simple w5a w5b [] = [] := by decide +kernel
+theorem w5_current : diff Dev.current id .simple w5a w5b [] = [] := by decide +kernel
+theorem w5_leaf : LeafDiff w5a w5b [] := LeafDiff.here (by decide +kernel)
+
+/-- `Diff(uint64(1<<63), int64(math.MinInt64))` is empty although the numbers differ -/
+theorem full_false_uintWrap : ¬ Full ⟨false, false, false, false, true⟩ := by
+  intro h
+  have h1 := (h id ordOK_id .simple w5a w5b [] (AllInts.int _ (by decide)) (AllInts.int _ (by decide))).1 []
+  rw [w5_model] at h1
+  have := h1.2 ⟨w5_leaf, by decide⟩
+  simp at this
+
+/-- the code as it is now does not satisfy C19 at full strength (known finding C19-uint64-wrap) -/
+theorem C19_full_false : ¬ C19_full := by
+  intro h
+  have h1 := (h id ordOK_id .simple w5a w5b [] (AllInts.int _ (by decide)) (AllInts.int _ (by decide))).1 []
+  rw [w5_current] at h1
+  have := h1.2 ⟨w5_leaf, by decide⟩
+  simp at this
+
+/-- the other direction of the same defect: 2^63 as a `uint64` and as a float are reported different -/
+theorem w5_float : diff Dev.current id .simple w5a (.flt [57, 50, 50, 51, 51, 55, 50, 48, 51, 54, 56, 53, 52, 55, 55, 53, 56, 48, 56]) [] = [here]
+    ∧ diff Dev.fixed id .simple w5a (.flt [57, 50, 50, 51, 51, 55, 50, 48, 51, 54, 56, 53, 52, 55, 55, 53, 56, 48, 56]) [] = [] := by
+  constructor <;> decide +kernel
 
 /-! ## non-trivial instances of the hypotheses -/
 
@@ -367,7 +451,7 @@ example : Clear Dev.pinned .simple w1a w1b [[.wild, .key kB]] :=
      · refine AllInts.obj _ (fun kv hkv => ?_)
        simp only [List.mem_cons, List.not_mem_nil, or_false] at hkv
        rcases hkv with rfl | rfl <;> exact AllInts.int _ (by decide),
-   fun _ h => by cases h⟩
+   fun _ h => (by cases h), fun _ => ⟨w1a_int64, w1b_int64⟩⟩
 
 /-- a leaf difference below an array and an object, not covered by `Path{nil,"b"}` -/
 example : LeafDiff w1a w1b [.idx 0, .key kA] ∧ ¬ Ignored [[.wild, .key kB]] [.idx 0, .key kA] :=
